@@ -6,6 +6,16 @@ From Quill Require Import Queue.BQDefs Backend.BEDefs Backend.BEExec Backend.BEI
 From Quill Require TieCtx.
 Import ListNotations.
 Local Open Scope N_scope.
+From Quill Require TieBE ExpectedBE.
+
+(* T-src: the BackendWorker methods this property's part of M-BE re-states are, statement by statement, the ones the model
+   was written against and compared with (ExpectedBE.v; the whole loop is tied in Properties_C03.C03_tie_backend_loop) *)
+Theorem C07_tie_backend_methods :
+  QuillGen.SrcFacts.sk_be_check_frontend_queues_and_cached_transit_events_empty = Quill.ExpectedBE.sk_be_check_frontend_queues_and_cached_transit_events_empty /\
+  QuillGen.SrcFacts.sk_be_populate_transit_events_from_frontend_queues = Quill.ExpectedBE.sk_be_populate_transit_events_from_frontend_queues /\
+  QuillGen.SrcFacts.sk_behas_pending_events_for_caching_when_transit_event_buffer_empty = Quill.ExpectedBE.sk_behas_pending_events_for_caching_when_transit_event_buffer_empty.
+Proof. exact (conj TieBE.src_be_check_frontend_queues_and_cached_transit_events_empty (conj TieBE.src_be_populate_transit_events_from_frontend_queues TieBE.src_behas_pending_events_for_caching_when_transit_event_buffer_empty)). Qed.
+Print Assumptions C07_tie_backend_methods.
 
 (* T-src: BackendWorker::_exit is the loop that exit_drain models *)
 Theorem C07_tie_exit_loop : QuillGen.SrcFacts.sk_be_exit = [
